@@ -185,14 +185,7 @@ func (s *swamp) PatchFields(key string, ops []msgpackpatch.Op, condition *msgpac
 	// guard. Without the in-guard re-check, a concurrent goroutine that finishes its create+
 	// patch in the window between the early beaconKey.Get and CreateTreasure would let this
 	// caller silently overwrite the patched body with the seed.
-	treasureObj := s.beaconKey.Get(key)
-	createdNew := false
-	if treasureObj == nil {
-		treasureObj = s.CreateTreasure(key)
-		createdNew = true
-	}
-
-	guardID := treasureObj.StartTreasureGuard(true)
+	treasureObj, guardID, createdNew := s.lockCurrentTreasure(key)
 	defer treasureObj.ReleaseTreasureGuard(guardID)
 
 	saved := false
